@@ -5,6 +5,7 @@
 -/
 import FP.Model.Coll
 import FP.Model.Eval
+import FP.Gen.ArgEval
 namespace FP.Props.C10
 open FP FP.Model
 
@@ -389,5 +390,25 @@ theorem expr_where_eq_filter (env : Env) (p : E) (input : List Val)
 theorem expr_this_is_the_item (env : Env) (x : Val) : eval env .this [x] = .ok [x] := rfl
 
 end Expr
+
+/-! ### which argument a function implementation evaluates, and on what — regenerated from funcs/impl -/
+
+/-- `where`, `select` and `all` evaluate their argument once per input item on the one-item collection of that
+    item (so `$this` is the item under test; `exists(c)` goes through `Where`); `children` evaluates a field
+    step per element; every other argument of every other function is evaluated on the function's own input.
+    This is the shape `FP.Model.Eval.apply1 / apply2 / apply3` are written after (`crit a x = a [x]`,
+    `(a input)` elsewhere). -/
+def expectedArgEvals : List (String × String × String) :=
+  [("All", "args[0]", "system.Collection{element}"), ("Children", "fe", "system.Collection{base}"),
+   ("Contains", "args[0]", "input"), ("EndsWith", "args[0]", "input"), ("Exclude", "args[0]", "input"),
+   ("Extension", "args[0]", "input"), ("Iif", "args[0]", "input"), ("Iif", "args[2]", "input"), ("Iif", "args[1]", "input"),
+   ("IndexOf", "args[0]", "input"), ("Intersect", "args[0]", "input"), ("Join", "args[0]", "input"), ("Log", "args[0]", "input"),
+   ("Matches", "args[0]", "input"), ("Power", "args[0]", "input"), ("Replace", "args[0]", "input"), ("Replace", "args[1]", "input"),
+   ("ReplaceMatches", "args[0]", "input"), ("ReplaceMatches", "args[1]", "input"), ("Round", "args[0]", "input"),
+   ("Select", "e", "system.Collection{item}"), ("Skip", "args[0]", "input"), ("StartsWith", "args[0]", "input"),
+   ("Substring", "args[0]", "input"), ("Substring", "args[1]", "input"), ("Take", "args[0]", "input"),
+   ("ToQuantity", "args[0]", "input"), ("Where", "e", "system.Collection{item}")]
+
+theorem argument_evaluation_as_modelled : FP.Gen.ArgEval.argEvals = expectedArgEvals := by decide +kernel
 
 end FP.Props.C10
